@@ -159,3 +159,42 @@ def fold_item_trait (visit : TraitItemFn Attr R → RustSem.Res (TraitItemFn Att
   (RustSem.mapRes visit i.items).bind fun items => .ok { i with items := items }
 
 end RustExtern.Syn
+
+/-! ## What the multitest proxies of `sylvia/src/multitest.rs` call
+
+`anyhow::Error` as the proxies look at it — it holds the contract's own error type, a `StdError`, or something else (an error of
+the chain itself) —, and the two operations of `cw_multi_test::Executor` they call, as parameters (`Chain`): what the chain does with
+an operation is cw-multi-test's business (modelled separately for C12), here only what the proxy passes in and what it makes of the
+result. -/
+namespace RustExtern.Mt
+
+inductive AnyErr (Error : Type) where
+  | own (e : Error)
+  | std (e : StdError)
+  | other (text : String)
+
+variable {Error : Type}
+
+/-- `err.is::<Error>()` / `err.is::<StdError>()` -/
+def AnyErr.isOwn : AnyErr Error → Bool | .own _ => true | _ => false
+def AnyErr.isStd : AnyErr Error → Bool | .std _ => true | _ => false
+/-- `err.downcast::<T>()`: the value when it is a `T`, else the error handed back -/
+def AnyErr.downcastOwn : AnyErr Error → Except (AnyErr Error) Error | .own e => .ok e | x => .error x
+def AnyErr.downcastStd : AnyErr Error → Except (AnyErr Error) StdError | .std e => .ok e | x => .error x
+/-- `err.to_string()` of an error that is neither: its text -/
+def AnyErr.text : AnyErr Error → String | .other t => t | .std (.generic_err m) => m | .own _ => ""
+
+/-- `Result::unwrap` -/
+def unwrap {α ε : Type} : Except ε α → RustSem.Res α | .ok a => .ok a | .error _ => .panic
+
+/-- `result.map_err(f)` with a closure that may panic -/
+def mapErrRes {α ε ε' : Type} (f : ε → RustSem.Res ε') : Except ε α → RustSem.Res (Except ε' α)
+  | .ok a => .ok (.ok a)
+  | .error e => (f e).bind fun e' => .ok (.error e')
+
+/-- the operations of the underlying test chain the proxies call; `Resp` is `AppResponse` -/
+structure Chain (App Msg Coin Resp Error : Type) where
+  execute_contract : App → String → String → Msg → List Coin → Except (AnyErr Error) Resp
+  migrate_contract : App → String → String → Msg → Nat → Except (AnyErr Error) Resp
+
+end RustExtern.Mt
